@@ -95,7 +95,7 @@ pub fn plan(property: &str) -> Option<Plan> {
         "C01" => (vec![stage("seq", "C01", 24_000, 400_000)], "exploration"),
         "C05" => (vec![stage("seq", "C05", 20_000, 300_000), stage("crash", "C05", 2_500, 30_000)], "exploration"),
         "C09" => (vec![stage("fault", "C09", 8_000, 100_000), stage("crash", "C09", 1_200, 16_000)], "fault_enumeration"),
-        "C10" => (vec![stage("seq", "C10", 20_000, 300_000), stage("golden", "C10", 600, 6_000), stage("migr", "C10", 2_000, 30_000)], "exploration"),
+        "C10" => (vec![stage("seq", "C10", 20_000, 300_000), stage("golden", "C10", 600, 6_000), stage("migr", "C10", 2_000, 30_000), stage("corr", "C10", 2_500, 40_000)], "exploration"),
         "C07" => (vec![stage("conc", "C07", 60_000, 1_500_000), stage("seq", "C01", 8_000, 100_000)], "exploration"),
         "C18" => (
             vec![
